@@ -1,7 +1,8 @@
 #!/bin/bash
 # seedrun.sh <seed-id> [--tier quick|thorough] [check ids...]
-# Applies /verif/seeded/<seed-id>/patch.diff to /repo, runs the checks (default: the property named in
-# meta.json) and reverts /repo. Evidence files and replays written during the run are restored afterwards.
+# Runs the checks (default: the property named in meta.json) against a scratch worktree of /repo's HEAD with
+# /verif/seeded/<seed-id>/patch.diff applied (VERIF_REPO), so that /repo and /verif/evidence stay untouched.
+# (Equivalent to: git -C /repo apply patch.diff; run checks; git -C /repo checkout -- .)
 set -u
 S=${1:?seed id}; shift
 TIER=quick
@@ -10,11 +11,13 @@ D=/verif/seeded/$S
 [ -f $D/patch.diff ] || { echo "no such seed $S"; exit 2; }
 CHECKS="$*"
 [ -n "$CHECKS" ] || CHECKS=$(python3 -c "import json;print(json.load(open('$D/meta.json'))['property'])")
-if [ -n "$(git -C /repo status --porcelain)" ]; then echo "/repo is not clean"; exit 2; fi
-git -C /repo apply $D/patch.diff || { echo "patch does not apply"; exit 2; }
-trap 'git -C /repo checkout -- . ; git -C /verif checkout -- evidence 2>/dev/null' EXIT
+E=$(mktemp -d /var/tmp/seedrun.XXXXXX)
+trap 'git -C /repo worktree remove --force $E/wt 2>/dev/null; rm -rf $E' EXIT
+git -C /repo worktree add --detach $E/wt HEAD >/dev/null 2>&1
+(cd $E/wt && git apply $D/patch.diff) || { echo "patch does not apply"; exit 2; }
+mkdir -p $E/ev $E/replays
 for c in $CHECKS; do
-  out=$(/verif/bin/vcheck $c --tier $TIER -replays /var/tmp/seedreplays 2>&1); rc=$?
+  out=$(VERIF_REPO=$E/wt VERIF_EVIDENCE_DIR=$E/ev /verif/bin/vcheck $c --tier $TIER -replays $E/replays 2>&1); rc=$?
   echo "== seed=$S check=$c tier=$TIER exit=$rc"
   echo "$out" | grep -A1 "^VIOLATION\|^KNOWN-FINDING\|ENGINE-ERROR" | cut -c1-260 | head -12
   echo "$out" | tail -1 | cut -c1-200
